@@ -261,6 +261,32 @@ func TestC20(t *testing.T) {
 		l := prepare(c.ID, "", pcfg, cfg, "cmd")
 		defer l.hardKill()
 		var started atomic.Bool
+		var second *plugin.Client
+		if p.SecondHost {
+			if _, err := l.Client.Start(); err != nil {
+				o.SetupErr = "start: " + err.Error()
+				done()
+				return
+			}
+			started.Store(true)
+			if _, err := l.Client.Client(); err != nil {
+				o.SetupErr = "client: " + err.Error()
+				done()
+				return
+			}
+			bcfg := baseClientConfig()
+			var berr lockedBuf
+			bcfg.Stderr = &berr
+			bcfg.SyncStdout, bcfg.SyncStderr = &lockedBuf{}, &lockedBuf{}
+			hostSetFor(bcfg, wire, "kv", "p1", "p2")
+			bcfg.Reattach = l.Client.ReattachConfig()
+			second = plugin.NewClient(bcfg)
+			if _, err := second.Client(); err != nil {
+				o.SetupErr = "second host: " + err.Error()
+				done()
+				return
+			}
+		}
 		ok, _, dump := within(120*time.Second, func() {
 			var wg sync.WaitGroup
 			for g := 0; g < p.G; g++ {
@@ -305,6 +331,12 @@ func TestC20(t *testing.T) {
 								cli := raw.(vp.Cli)
 								if _, err := cli.Do("big", "n", 3000); err != nil {
 									return err
+								}
+								if p.SecondHost {
+									// the plugin writes to its stdout and stderr (shipped to every connected host)
+									if _, err := cli.Do("write", "plan", map[string]any{"seed": rr.Intn(1000), "frames": []map[string]any{{"s": "o", "n": 40 + rr.Intn(2000)}, {"s": "e", "n": 40 + rr.Intn(2000)}, {"s": "o", "n": 10}}}); err != nil {
+										return err
+									}
 								}
 								// a brokered connection served by the plugin (distinct ids; sequential under mux)
 								if !mux && rr.Intn(2) == 0 {
@@ -363,6 +395,9 @@ func TestC20(t *testing.T) {
 			o.Dump = trunc(dump, 6000)
 		}
 		stopped.Store(true)
+		if second != nil {
+			within(30*time.Second, second.Kill)
+		}
 		within(30*time.Second, l.Client.Kill)
 		for _, ln := range strings.Split(string(perr.Bytes()), "\n") {
 			if strings.Contains(ln, "panic:") || strings.Contains(ln, "fatal error:") || strings.Contains(ln, "DATA RACE") {
